@@ -61,7 +61,7 @@ func init() { core.Register(P{}) }
 func (P) ID() string { return "C19" }
 func (P) Rule() string {
 	return "case = either one logging run (`m` op per message, then `run`): 1..8 messages (requests/responses, request+response pairs sharing an id, random pseudo-header " +
-		"fields, header maps with repeated/empty/binary/long (> 64 KiB) values, bodies 0..MiB delivered by a scripted body in random chunkings (one Read returns 1 byte .. 1 MiB) with " +
+		"fields, header maps with repeated/empty/binary/long (> 64 KiB) values, Host/Content-Length/Transfer-Encoding on the boundaries between struct field and header map (explicit zero length, map only, field only, stale map entries), bodies 0..MiB delivered by a scripted body in random chunkings (one Read returns 1 byte .. 1 MiB) with " +
 		"EOF-with-data / separate EOF / early stop / mid-body error / reads after EOF, consumer buffers of random slack) logged concurrently " +
 		"to one real marbl.Stream (writer: a recorder that also retains the slices it is handed; via marbl.Modifier in 1/5, into the real marbl.Handler " +
 		"with a real websocket subscriber in 2/5 of the cases; or, `rung`, 2..6 messages under a controlled schedule: the writer goroutine is held inside every Write, " +
@@ -590,6 +590,76 @@ func sortedPairs(p []pair) []pair {
 
 var special = map[string]bool{"Host": true, "Content-Length": true, "Transfer-Encoding": true}
 
+// fieldHeaders: the message's Host / Content-Length / Transfer-Encoding headers, stated from the
+// message itself and not from proxyutil. net/http keeps these three in struct fields (Request.Host,
+// ContentLength, TransferEncoding) and writes the FIELDS on the wire; the header map may hold the
+// same names as well (a message parsed from the wire keeps its Content-Length line, "Content-Length:
+// 0" included; a modifier or a hand-built message may carry any of them). Per name:
+//
+//	field set (Host != "", ContentLength > 0, TransferEncoding non-empty)  -> the field, whatever the map says
+//	field unset (Host "", responses have none; TransferEncoding nil), map has the name -> the map's values: they
+//	      are headers of the message and nothing contradicts them
+//	ContentLength == 0 and the map says exactly "0"   -> Content-Length: 0 (an explicit zero length: bodyless
+//	      POST, 302, empty 200 read from the wire; field and map agree)
+//	anything else with the name in the map (ContentLength <= 0 against another map value, an empty
+//	      non-nil TransferEncoding against a map entry) -> a contradiction inside the message: not judged
+//	name nowhere -> no such header
+func fieldHeaders(m *msg) (ps []pair, abstain map[string]bool) {
+	abstain = map[string]bool{}
+	inMap := map[string][]string{}
+	has := map[string]bool{}
+	for _, kv := range m.hdr {
+		if special[kv.k] {
+			inMap[kv.k], has[kv.k] = kv.vs, true
+		}
+	}
+	add := func(k string, vs []string) {
+		for _, v := range vs {
+			ps = append(ps, pair{k, v})
+		}
+	}
+	// Host
+	switch {
+	case m.kind == 'q' && m.host != "":
+		add("Host", []string{m.host})
+		if has["Host"] {
+			core.Count("fields:host-field-vs-map")
+		}
+	case has["Host"]:
+		add("Host", inMap["Host"])
+		core.Count("fields:host-map-only")
+	}
+	// Content-Length
+	switch {
+	case m.cl > 0:
+		add("Content-Length", []string{strconv.FormatInt(m.cl, 10)})
+		if has["Content-Length"] {
+			core.Count("fields:cl-field-vs-map")
+		}
+	case has["Content-Length"] && m.cl == 0 && len(inMap["Content-Length"]) == 1 && inMap["Content-Length"][0] == "0":
+		add("Content-Length", []string{"0"})
+		core.Count("fields:cl-explicit-zero")
+	case has["Content-Length"]:
+		abstain["Content-Length"] = true
+		core.Count("fields:cl-contradiction-not-judged")
+	}
+	// Transfer-Encoding
+	switch {
+	case len(m.te) > 0:
+		add("Transfer-Encoding", m.te)
+		if has["Transfer-Encoding"] {
+			core.Count("fields:te-field-vs-map")
+		}
+	case m.te == nil && has["Transfer-Encoding"]:
+		add("Transfer-Encoding", inMap["Transfer-Encoding"])
+		core.Count("fields:te-map-only")
+	case has["Transfer-Encoding"]:
+		abstain["Transfer-Encoding"] = true
+		core.Count("fields:te-contradiction-not-judged")
+	}
+	return ps, abstain
+}
+
 func joinOr(sep string, l []string) string {
 	if len(l) == 0 {
 		return "-"
@@ -648,6 +718,7 @@ func doLog(toks []string, mode string, seed uint64, opText string) core.Result {
 	wireID := make([]string, len(ms))
 	gots := make([][]got, len(ms))
 	expect := make([][]pair, len(ms)) // what the message's (pseudo-)headers are, stated from the message
+	abstain := make([]map[string]bool, len(ms))
 	var removes []func()
 	start := make(chan struct{})
 	var wg sync.WaitGroup
@@ -709,15 +780,9 @@ func doLog(toks []string, mode string, seed uint64, opText string) core.Result {
 				expect[i] = append(expect[i], pair{kv.k, v})
 			}
 		}
-		if m.kind == 'q' && m.host != "" {
-			expect[i] = append(expect[i], pair{"Host", m.host})
-		}
-		if m.cl > 0 {
-			expect[i] = append(expect[i], pair{"Content-Length", strconv.FormatInt(m.cl, 10)})
-		}
-		for _, v := range m.te {
-			expect[i] = append(expect[i], pair{"Transfer-Encoding", v})
-		}
+		fp, ab := fieldHeaders(m)
+		expect[i] = append(expect[i], fp...)
+		abstain[i] = ab
 		ctx, remove, err := martian.TestContext(req, nil, nil)
 		if err != nil {
 			return core.Result{Impl: "bad-op"}
@@ -931,16 +996,10 @@ func doLog(toks []string, mode string, seed uint64, opText string) core.Result {
 		out = append(out, fmt.Sprintf("m%d=%s|%s|%s", i, joinOr(",", hs), joinOr(",", ds), joinOr(",", rets)))
 
 		// -- oracle, message i --------------------------------------------------------------
-		// (a) exactly the message's pseudo-headers and headers (a multiset). The three names
-		// proxyutil.Header routes to message fields are compared as those fields.
-		// A map key spelled like one of them is outside what net/http produces; frames of that
-		// name are then not judged (the model comparison still covers them).
-		lenient := map[string]bool{}
-		for _, kv := range m.hdr {
-			if special[kv.k] {
-				lenient[kv.k] = true
-			}
-		}
+		// (a) exactly the message's pseudo-headers and headers (a multiset), stated from the message
+		// itself (fieldHeaders); names on which struct field and header map contradict each other
+		// are not judged (the model comparison still covers them).
+		lenient := abstain[i]
 		var hp2, ex2 []pair
 		for _, p := range hp {
 			if !lenient[p.k] {
